@@ -59,14 +59,12 @@ OPERAND_MUTATION_REFERENCE: Dict[Tuple[str, str], str] = {
     # (function, statement prefix) -> reason
     ("vtlengine.Operators.Assignment.Assignment.validate", "right_operand.name = left_operand"): "assignment renames its freshly computed right operand to the target name",
     ("vtlengine.Operators.Conditional.If.validate", "§.data_type = §.data_type = binary_implicit_promotion("): "if-then-else unifies the branch types in place (branches are per-statement temporaries)",
-    ("vtlengine.Operators.Conditional.If.validate", "§.data_type = §.components[§.name].data_type ="): "if-then-else unifies branch component types in place (per-statement temporaries)",
     ("vtlengine.Operators.General.Eval.validate", "output.name = external_routine.name"): "eval names its declared output",
     ("vtlengine.Operators.Join.Apply.create_dataset", "prefix += '#'"): "string augmentation (immutable value)",
     ("vtlengine.Operators.Join.Apply.create_dataset", "§.name = §.name[len(prefix):] if"): "apply strips alias prefixes on the join temporary",
     ("vtlengine.Operators.Numeric.Random.validate", "index.data_type = binary_implicit_promotion(index.data_type, Integer)"): "random promotes its index scalar in place (constant operand)",
     ("vtlengine.Operators.RoleSetter.RoleSetter.validate", "operand.role = cls.role"): "role setters act on the calc temporary",
     ("vtlengine.Operators.Validation.Check.validate", "§['imbalance'].name = 'imbalance'"): "check renames the imbalance component of its temporary operand",
-    ("vtlengine.Operators.Conditional.If.validate", "§.data_type = binary_implicit_promotion(§.data_type, §.data_type)"): "if-then-else promotes then-branch measures against a scalar else-branch in place (per-statement temporaries)",
     ("vtlengine.Model.Dataset.delete_component", "self.components.pop(component_name, None)"): "aggr clause / check_hierarchy drop a component of their working dataset (reference behaviour)",
     ("vtlengine.Model.Dataset.delete_component", "self.data.drop(columns=[component_name], inplace=True)"): "aggr clause / check_hierarchy drop a component of their working dataset (reference behaviour)",
     ("vtlengine.Model.Dataset.add_component", "self.components[component.name] = component"): "aggr clause adds the aggregated components to a result sharing the working dataset's component dict (reference behaviour)",
